@@ -96,7 +96,7 @@ def run(repo, res, rid, floor=6, scope=None):
                 return False
 
             def nullable_array(e):
-                if isinstance(e, ast.Attribute) and e.attr in ("mutations_edge", "nodes_individual", "mutations_parent") and not isinstance(e.ctx, ast.Store):
+                if isinstance(e, ast.Attribute) and e.attr in ("mutations_edge", "mutation_edges", "nodes_individual", "mutations_parent") and not isinstance(e.ctx, ast.Store):
                     return True
                 if isinstance(e, ast.Name) and e.id in arrays:
                     return True
